@@ -26,3 +26,4 @@ gen F5-reopen-at-page-frontier cc01d31 C16 panic
 gen F6-stale-nodes-after-remap 4274303 C10 panic
 gen F7-internal-cost-overflow 902a609 C03 too-big-admitted
 gen F8-update-cost-wraps-counter 7a28955 C03 over-capacity
+gen F9-trimto-releases-buffer-in-use 1a240fc C12 hang
